@@ -5,5 +5,3 @@ const void * wl_fields_ptr(void); const void * wl_msgs_ptr(void); const void * w
 /* allocation budget of the layout job ("never allocates more than a fixed multiple of N"): asserted by the allocator models of prelude_base.h */
 u32 wl_alloc_one(void);
 #define IR2C_ALLOC_HOOK(n) do { if (wl_alloc_one()) { __CPROVER_assert((n) <= wl_alloc_one(), "allocation request within the O(N) per-request budget"); __CPROVER_assume((n) <= wl_alloc_one()); } } while (0)   /* the assume ends the path: a request beyond the budget is reported, not modelled */
-/* field-name hashing: names are job constants, any deterministic function serves (the hash decides bucket placement only; iteration order is insertion order) */
-static inline u32 ir2c_hash32(u8 *p, u64 n, u32 seed) { u32 h = seed; for (u64 i = 0; i < n; i++) h = h * 31u + p[i]; return h; }
